@@ -438,6 +438,15 @@ def _b_bytes(interp, args, kwargs, state, node):
     t = T.typeof(x)
     if t == {'bytes'} and len(args) == 1:
         return x
+    if len(args) == 1:
+        seq = static_sequence(interp, x, state)
+        if seq is not None and all(isinstance(i, int) and
+                                   not isinstance(i, bool) and
+                                   0 <= i <= 255 for i in seq):
+            return bytes(seq)
+        if isinstance(x, int) and not isinstance(x, bool) and \
+                0 <= x <= 65536:
+            return bytes(x)
     return Sym('bytes', *[_t(a) for a in args])
 
 
